@@ -44,7 +44,27 @@ Proof. exact slow_peer_fine_after_recovery. Qed.
 Example C15_old_rule_refuted : In KRecycle (snd (krun 250 (old_recovered (mkK 3 0 3 false)) (slow_peer_schedule 400))).
 Proof. exact old_rule_refuted. Qed.
 
+(* the property at full strength.  [answering interval lat lt pending acts]: ticks at most [interval] apart, every
+   heartbeat answered (in order) no later than [lat] after it was sent, any number of recoveries anywhere.  With
+   lat + interval <= timeout such a peer is never declared dead - C15_no_false_positive above is the special case
+   "answered before the next tick".  Holds only since 0c8c1ad (C15_old_rule_refuted). *)
+Theorem C15_answering_peer_never_declared_dead : forall timeout interval lat, lat + interval <= timeout ->
+  forall acts s lt pending,
+  answering interval lat lt pending acts -> kinv interval lt pending s ->
+  N.of_nat (length acts) + k_counter s + 1 < 4294967296 ->
+  no_recycle (snd (krun timeout s acts)).
+Proof. exact answering_peer_never_declared_dead. Qed.
+Theorem C15_answering_peer_after_dial : forall timeout interval lat start acts, lat + interval <= timeout ->
+  answering interval lat start [] acts -> N.of_nat (length acts) + 1 < 4294967296 ->
+  no_recycle (snd (krun timeout (k0 start) acts)).
+Proof. exact answering_peer_after_dial. Qed.
+Example C15_slow_peer_is_answering :
+  answering 100 150 0 [] (slow_peer_schedule 0) /\ answering 100 150 400 [] (KRecovered 400 :: slow_peer_schedule 400).
+Proof. split; [exact slow_peer_is_answering|exact slow_peer_is_answering_after_recovery]. Qed.
+
 Print Assumptions C15_ping_schedule.
+Print Assumptions C15_answering_peer_never_declared_dead.
+Print Assumptions C15_answering_peer_after_dial.
 Print Assumptions C15_recovered_like_fresh.
 Print Assumptions C15_peer_ping_echoed.
 Print Assumptions C15_detects_dead_within_interval_plus_timeout.
